@@ -2027,6 +2027,18 @@ func ruleR63(c *Ctx) {
 					good := isLast(ri.Index, se.X) && !isLast(li.Index, se.X)
 					c.Check(good, f, ov, "swap-remove on "+exprString(se.X), what,
 						fmt.Sprintf("overwrite `%s = %s` before the truncation: source is the last element: %v, destination is the last element: %v", exprString(ov.Lhs[0]), exprString(ov.Rhs[0]), isLast(ri.Index, se.X), isLast(li.Index, se.X)))
+					// between the move and the truncation the last slot still holds the element that was moved
+					// to the hole: a statement that keeps that value (for re-use as a 'spare') keeps a second
+					// reference to a live element
+					for q := k + 1; q < i; q++ {
+						ks, ok := list[q].(*ast.AssignStmt)
+						if !ok || len(ks.Rhs) != 1 {
+							continue
+						}
+						if ki, ok := unparen(ks.Rhs[0]).(*ast.IndexExpr); ok && sameRef(in, ki.X, se.X) && isLast(ki.Index, se.X) {
+							c.Bad(f, ks, "value kept from the vacated slot of "+exprString(se.X), what, fmt.Sprintf("`%s = %s` after the move keeps a reference to the element that now lives at %s", exprString(ks.Lhs[0]), exprString(ks.Rhs[0]), exprString(ov.Lhs[0])))
+						}
+					}
 					break
 				}
 			}
